@@ -135,6 +135,43 @@ Proof.
   intros E0. rewrite E0 in Hrev. simpl in Hrev. intuition discriminate.
 Qed.
 
+(* 5a. EVERY class mentioned by an extracted key (as parent or as child) pumps w.r.t. the extracted
+       keys alone - not only the start class.  Minimality gives it: a key mentioning a class that
+       does not pump is outside the pumping sub-universe of `res`, so it could be dropped
+       (sub_pumps), contradicting extract_minimal.  Uses the run of the table method on the
+       extracted keys that check() performs (discharged in ExtractorTermination.v). *)
+Theorem extract_all_classes_pump pick' fuel' stS :
+  run pick' fuel' init (add_ops res) = Some stS -> Pk root res ->
+  forall k c, In k res -> mentions_class c k -> pumps (map bk_key res) c.
+Proof.
+  intros ES HP k c Hk Hc.
+  destruct (run_init_rules _ _ _ _ ES) as [F R]. rewrite keys_of_add_ops in R.
+  destruct (final_dichotomy stS F) as [HT Hd]. destruct (final_gbound stS F) as [Hg Hgb].
+  rewrite R in Hd, Hgb.
+  destruct (Hd c) as [Hp|Hb]; auto. exfalso.
+  destruct (In_nth _ _ (mkb dummy 0) Hk) as (i & Hi & Ei).
+  apply (extract_minimal i Hi). unfold Pk.
+  apply (sub_pumps (map bk_key res) _ (maxv (fn stS)) (gsize stS) Hg Hgb HT Hd); auto.
+  intros r Hr Hpp Hkp.
+  (* r is not the i-th key, since that one mentions the non-pumping class c *)
+  destruct (In_nth _ _ dummy Hr) as (j & Hj & Ej). rewrite map_length in Hj. rewrite nth_bk in Ej.
+  destruct (Nat.eq_dec j i) as [->|Hne].
+  - exfalso. rewrite Ei in Ej. subst r.
+    assert (pumps (map bk_key res) c) as Hp.
+    { destruct Hc as [<-|[s Hs]]; auto. apply (Hkp c s Hs). }
+    specialize (Hb (maxv (fn stS) + 1) (Hp (maxv (fn stS) + 1))). lia.
+  - apply in_map_iff. exists (nth j res (mkb dummy 0)). split; auto.
+    rewrite in_app_iff.
+    destruct (Nat.lt_ge_cases j i) as [Hlt|Hge].
+    + left. rewrite <- (firstn_skipn i res) at 1.
+      rewrite app_nth1 by (rewrite firstn_length; lia).
+      apply nth_In. rewrite firstn_length. lia.
+    + right. assert (j = S i + (j - S i))%nat as Ej' by lia.
+      rewrite <- (firstn_skipn (S i) res) at 1. rewrite app_nth2 by (rewrite firstn_length; lia).
+      rewrite firstn_length. replace (Nat.min (S i) (length res)) with (S i) by lia.
+      apply nth_In. rewrite skipn_length. lia.
+Qed.
+
 (* 5. closed: every class mentioned by an extracted key is the left-hand side
       of an extracted key.  Uses the run of the table method on the extracted
       keys that check() performs. *)
@@ -144,33 +181,7 @@ Theorem extract_closed pick' fuel' stS :
   exists k', In k' res /\ parent (bk_key k') = c.
 Proof.
   intros ES HP k c Hk Hc.
-  destruct (run_init_rules _ _ _ _ ES) as [F R]. rewrite keys_of_add_ops in R.
-  destruct (final_dichotomy stS F) as [HT Hd]. destruct (final_gbound stS F) as [Hg Hgb].
-  rewrite R in Hd, Hgb.
-  (* every class mentioned by a key of res pumps w.r.t. res *)
-  assert (pumps (map bk_key res) c) as Hpc.
-  { destruct (Hd c) as [Hp|Hb]; auto. exfalso.
-    destruct (In_nth _ _ (mkb dummy 0) Hk) as (i & Hi & Ei).
-    apply (extract_minimal i Hi). unfold Pk.
-    apply (sub_pumps (map bk_key res) _ (maxv (fn stS)) (gsize stS) Hg Hgb HT Hd); auto.
-    intros r Hr Hpp Hkp.
-    (* r is not the i-th key, since that one mentions the non-pumping class c *)
-    destruct (In_nth _ _ dummy Hr) as (j & Hj & Ej). rewrite map_length in Hj. rewrite nth_bk in Ej.
-    destruct (Nat.eq_dec j i) as [->|Hne].
-    - exfalso. rewrite Ei in Ej. subst r.
-      assert (pumps (map bk_key res) c) as Hp.
-      { destruct Hc as [<-|[s Hs]]; auto. apply (Hkp c s Hs). }
-      specialize (Hb (maxv (fn stS) + 1) (Hp (maxv (fn stS) + 1))). lia.
-    - apply in_map_iff. exists (nth j res (mkb dummy 0)). split; auto.
-      rewrite in_app_iff.
-      destruct (Nat.lt_ge_cases j i) as [Hlt|Hge].
-      + left. rewrite <- (firstn_skipn i res) at 1.
-        rewrite app_nth1 by (rewrite firstn_length; lia).
-        apply nth_In. rewrite firstn_length. lia.
-      + right. assert (j = S i + (j - S i))%nat as Ej' by lia.
-        rewrite <- (firstn_skipn (S i) res) at 1. rewrite app_nth2 by (rewrite firstn_length; lia).
-        rewrite firstn_length. replace (Nat.min (S i) (length res)) with (S i) by lia.
-        apply nth_In. rewrite skipn_length. lia. }
+  pose proof (extract_all_classes_pump pick' fuel' stS ES HP k c Hk Hc) as Hpc.
   (* a pumping class is the parent of some key *)
   pose proof (Hpc 1) as D. inversion D as [c0 v Hv | r v Hr _ Epar]; [lia|].
   apply in_map_iff in Hr. destruct Hr as (k' & Ek & Hk'). exists k'. split; auto. congruence.
